@@ -470,6 +470,21 @@ def dispatch (toks : List String) : String :=
      | _ => "bad-op")
   | ["prec", flag, conf, dflt] =>
     Conf.effective (if flag == "-" then none else some flag) (if conf == "-" then none else some conf) dflt
+  | ["c08.slurm", q, a, acc, stale] =>
+    (match St.slurmJob (if q == "-" then none else some (unh q)) (if a == "-" then none else some (unh a)) (bool! acc) with
+     | some b => (St.shown b (bool! stale)).name
+     | none => "keyerror")
+  | ["c08.lsf", c, stale] => (match c with
+     | "-" => (St.shown .unknown (bool! stale)).name
+     | _ => match St.lsfState (unh c) with | some b => (St.shown b (bool! stale)).name | none => "keyerror")
+  | ["c08.sge", c, stale] => (match c with
+     | "-" => (St.shown .unknown (bool! stale)).name
+     | _ => (St.shown (St.sgeState (unh c)) (bool! stale)).name)
+  | ["c08.local", c, stale] => (match c with
+     | "-" => (St.shown .unknown (bool! stale)).name
+     | _ => match LStatus.ofName? c with
+       | some l => (match St.localState l with | some b => (St.shown b (bool! stale)).name | none => "keyerror")
+       | none => "keyerror")
   | ["validname", n] => showBool (Wfl.validName (unh n))
   | ["validpath", n] => showBool (Wfl.validPath (unh n))
   | ["targetwd", t, w] => toh (Wfl.targetWd (if t == "-" then none else some (unh t)) (unh w))
